@@ -168,3 +168,189 @@ pub proof fn lemma_matches_ext(a: &NoGood, b: &NoGood, i: TA)
 {
     assert forall|x: u32| a.act().contains(x) implies i(x) == #[trigger] a.val().contains(x) by { assert(b.act().contains(x)); assert(i(x) == b.val().contains(x)); }
 }
+// ---- add_ng: excluded-set bookkeeping
+// relation between an old bucket o and the bucket n left by `retain(|x| !ng.is_violating(x))` (when `filtered`)
+pub open spec fn bucket_rel(o: Seq<NoGood>, n: Seq<NoGood>, ng: &NoGood, filtered: bool) -> bool {
+    if !filtered { n == o } else {
+        &&& forall|j: int| 0 <= j < n.len() ==> o.contains(#[trigger] n[j])
+        &&& forall|j2: int| 0 <= j2 < o.len() ==> n.contains(#[trigger] o[j2]) || ng.matches(&o[j2])
+    }
+}
+pub proof fn lemma_bucket_rel_refl(o: Seq<NoGood>, ng: &NoGood, filtered: bool)
+    ensures bucket_rel(o, o, ng, filtered)
+{
+    assert forall|j: int| 0 <= j < o.len() implies o.contains(#[trigger] o[j]) by { }
+}
+// one step of the lowered `retain`: element at position ri of pv kept (nv == pv) or removed because ng matches it
+pub proof fn lemma_retain_step(o: Seq<NoGood>, pv: Seq<NoGood>, nv: Seq<NoGood>, ng: &NoGood, ri: int)
+    requires 0 <= ri < pv.len(), nv == pv.remove(ri), ng.matches(&pv[ri]),
+        forall|j: int| 0 <= j < pv.len() ==> o.contains(#[trigger] pv[j]),
+        forall|j2: int| 0 <= j2 < o.len() ==> pv.contains(#[trigger] o[j2]) || ng.matches(&o[j2]),
+    ensures
+        forall|j: int| 0 <= j < nv.len() ==> o.contains(#[trigger] nv[j]),
+        forall|j2: int| 0 <= j2 < o.len() ==> nv.contains(#[trigger] o[j2]) || ng.matches(&o[j2]),
+{
+    assert forall|j: int| 0 <= j < nv.len() implies o.contains(#[trigger] nv[j]) by {
+        if j < ri { assert(nv[j] == pv[j]); } else { assert(nv[j] == pv[j + 1]); }
+    }
+    assert forall|j2: int| 0 <= j2 < o.len() implies nv.contains(#[trigger] o[j2]) || ng.matches(&o[j2]) by {
+        if pv.contains(o[j2]) && !ng.matches(&o[j2]) {
+            let j = choose|j: int| 0 <= j < pv.len() && pv[j] == o[j2];
+            assert(j != ri);
+            if j < ri { assert(nv[j] == o[j2]); } else { assert(nv[j - 1] == o[j2]); }
+        }
+    }
+}
+pub proof fn lemma_excl_subsumed(st: Seq<Vec<NoGood>>, ng: &NoGood, b: int, j: int)
+    requires 0 <= b < st.len(), 0 <= j < st[b]@.len(), st[b]@[j].matches(ng),
+    ensures excl_add(st, st, ng)
+{
+    assert forall|i: TA| #![trigger avoids_all(i, st)] avoids_all(i, st) == (avoids_all(i, st) && !ext_of(i, ng)) by {
+        if avoids_all(i, st) && ext_of(i, ng) { lemma_matches_ext(&st[b]@[j], ng, i); assert(!ext_of(i, &st[b]@[j])); }
+    }
+}
+pub proof fn lemma_excl_push(st0: Seq<Vec<NoGood>>, st1: Seq<Vec<NoGood>>, ng: &NoGood, idx: int)
+    requires 0 <= idx < st0.len(), st1.len() == st0.len(), forall|b: int| 0 <= b < st0.len() && b != idx ==> (#[trigger] st1[b])@ == st0[b]@, st1[idx]@ == st0[idx]@.push(*ng),
+    ensures excl_add(st0, st1, ng)
+{
+    assert forall|i: TA| #![trigger avoids_all(i, st1)] avoids_all(i, st1) == (avoids_all(i, st0) && !ext_of(i, ng)) by {
+        if avoids_all(i, st1) {
+            assert(st1[idx]@[st0[idx]@.len() as int] == *ng);
+            assert(!ext_of(i, &st1[idx]@[st0[idx]@.len() as int]));
+            assert forall|b: int, j: int| 0 <= b < st0.len() && 0 <= j < st0[b]@.len() implies !ext_of(i, #[trigger] &st0[b]@[j]) by {
+                assert(st1[b]@[j] == st0[b]@[j]); assert(!ext_of(i, &st1[b]@[j]));
+            }
+        }
+        if avoids_all(i, st0) && !ext_of(i, ng) {
+            assert forall|b: int, j: int| 0 <= b < st1.len() && 0 <= j < st1[b]@.len() implies !ext_of(i, #[trigger] &st1[b]@[j]) by {
+                if b == idx && j == st0[idx]@.len() { } else { assert(st1[b]@[j] == st0[b]@[j]); assert(!ext_of(i, &st0[b]@[j])); }
+            }
+        }
+    }
+}
+pub proof fn lemma_excl_filtered(st0: Seq<Vec<NoGood>>, st1: Seq<Vec<NoGood>>, ng: &NoGood, idx: int)
+    requires st1.len() == st0.len(), forall|b: int| 0 <= b < st0.len() ==> bucket_rel(#[trigger] st0[b]@, st1[b]@, ng, idx <= b),
+    ensures forall|i: TA| #![trigger avoids_all(i, st1)] (avoids_all(i, st1) && !ext_of(i, ng)) == (avoids_all(i, st0) && !ext_of(i, ng))
+{
+    assert forall|i: TA| #![trigger avoids_all(i, st1)] (avoids_all(i, st1) && !ext_of(i, ng)) == (avoids_all(i, st0) && !ext_of(i, ng)) by {
+        if avoids_all(i, st1) && !ext_of(i, ng) {
+            assert forall|b: int, j: int| 0 <= b < st0.len() && 0 <= j < st0[b]@.len() implies !ext_of(i, #[trigger] &st0[b]@[j]) by {
+                assert(bucket_rel(st0[b]@, st1[b]@, ng, idx <= b));
+                if idx <= b {
+                    if ng.matches(&st0[b]@[j]) { if ext_of(i, &st0[b]@[j]) { lemma_matches_ext(ng, &st0[b]@[j], i); } }
+                    else { assert(st1[b]@.contains(st0[b]@[j])); let j1 = choose|j1: int| 0 <= j1 < st1[b]@.len() && st1[b]@[j1] == st0[b]@[j]; assert(!ext_of(i, &st1[b]@[j1])); }
+                } else { assert(!ext_of(i, &st1[b]@[j])); }
+            }
+        }
+        if avoids_all(i, st0) && !ext_of(i, ng) {
+            assert forall|b: int, j: int| 0 <= b < st1.len() && 0 <= j < st1[b]@.len() implies !ext_of(i, #[trigger] &st1[b]@[j]) by {
+                assert(bucket_rel(st0[b]@, st1[b]@, ng, idx <= b));
+                if idx <= b { assert(st0[b]@.contains(st1[b]@[j])); let j2 = choose|j2: int| 0 <= j2 < st0[b]@.len() && st0[b]@[j2] == st1[b]@[j]; assert(!ext_of(i, &st0[b]@[j2])); }
+                else { assert(!ext_of(i, &st0[b]@[j])); }
+            }
+        }
+    }
+}
+pub proof fn lemma_store_wf_filtered(st0: Seq<Vec<NoGood>>, st1: Seq<Vec<NoGood>>, ng: &NoGood, idx: int)
+    requires store_wf(st0), st1.len() == st0.len(), forall|b: int| 0 <= b < st0.len() ==> bucket_rel(#[trigger] st0[b]@, st1[b]@, ng, idx <= b),
+    ensures store_wf(st1)
+{
+    assert forall|b: int, j: int| 0 <= b < st1.len() && 0 <= j < st1[b]@.len() implies (#[trigger] st1[b]@[j]).act().len() == b + 1 && wf_ng(&st1[b]@[j]) by {
+        assert(bucket_rel(st0[b]@, st1[b]@, ng, idx <= b));
+        if idx <= b { assert(st0[b]@.contains(st1[b]@[j])); let j2 = choose|j2: int| 0 <= j2 < st0[b]@.len() && st0[b]@[j2] == st1[b]@[j]; assert(st0[b]@[j2].act().len() == b + 1); }
+        else { assert(st0[b]@[j].act().len() == b + 1); }
+    }
+}
+
+// filtered store + pushed nogood: the complete effect of add_ng when the nogood is stored
+pub proof fn lemma_add_ng_pushed(st0: Seq<Vec<NoGood>>, st1: Seq<Vec<NoGood>>, st2: Seq<Vec<NoGood>>, ng: &NoGood, idx: int)
+    requires store_wf(st0), wf_ng(ng), ng.act().len() == idx + 1, 0 <= idx < st0.len(), st1.len() == st0.len(), st2.len() == st0.len(),
+        forall|b: int| 0 <= b < st0.len() ==> bucket_rel(#[trigger] st0[b]@, st1[b]@, ng, idx <= b),
+        forall|b: int| 0 <= b < st0.len() && b != idx ==> (#[trigger] st2[b])@ == st1[b]@, st2[idx]@ == st1[idx]@.push(*ng),
+    ensures store_wf(st2), excl_add(st0, st2, ng)
+{
+    lemma_store_wf_filtered(st0, st1, ng, idx);
+    lemma_excl_filtered(st0, st1, ng, idx);
+    lemma_excl_push(st1, st2, ng, idx);
+    assert forall|b: int, j: int| 0 <= b < st2.len() && 0 <= j < st2[b]@.len() implies (#[trigger] st2[b]@[j]).act().len() == b + 1 && wf_ng(&st2[b]@[j]) by {
+        if b == idx && j == st1[idx]@.len() { } else { assert(st2[b]@[j] == st1[b]@[j]); }
+    }
+    assert forall|i: TA| #![trigger avoids_all(i, st2)] avoids_all(i, st2) == (avoids_all(i, st0) && !ext_of(i, ng)) by {
+        assert(avoids_all(i, st2) == (avoids_all(i, st1) && !ext_of(i, ng)));
+        assert((avoids_all(i, st1) && !ext_of(i, ng)) == (avoids_all(i, st0) && !ext_of(i, ng)));
+    }
+}
+// ---- conclusion_closure: statements over term vectors (a NoGood value cannot be built in spec code, its bitmaps are opaque)
+pub open spec fn ext_tv(i: TA, tv: Seq<Term>) -> bool { forall|p: int| 0 <= p < tv.len() && !und(#[trigger] tv[p]) ==> i(p as u32) == (tv[p].0 == 1) }
+pub proof fn lemma_ext_tv(i: TA, n: &NoGood, tv: Seq<Term>)
+    requires is_tv(n, tv), tv.len() <= u32::MAX,
+    ensures ext_of(i, n) == ext_tv(i, tv)
+{
+    if ext_of(i, n) { assert forall|p: int| 0 <= p < tv.len() && !und(#[trigger] tv[p]) implies i(p as u32) == (tv[p].0 == 1) by { assert(n.act().contains(p as u32)); assert(i(p as u32) == n.val().contains(p as u32)); } }
+    if ext_tv(i, tv) { assert forall|x: u32| n.act().contains(x) implies i(x) == #[trigger] n.val().contains(x) by { assert(!und(tv[x as int])); } }
+}
+// v extends base only by literals forced by the store
+pub open spec fn tv_forced_ext(store: Seq<Vec<NoGood>>, base: Seq<Term>, v: Seq<Term>) -> bool {
+    &&& v.len() == base.len()
+    &&& forall|p: int| 0 <= p < base.len() && !und(#[trigger] base[p]) ==> v[p] == base[p]
+    &&& forall|p: int| 0 <= p < base.len() && und(#[trigger] base[p]) && !und(v[p]) ==> forall|i: TA| ext_tv(i, base) && #[trigger] avoids_all(i, store) ==> i(p as u32) == (v[p].0 == 1)
+}
+pub open spec fn tv_no_extension(store: Seq<Vec<NoGood>>, base: Seq<Term>) -> bool { forall|i: TA| ext_tv(i, base) ==> !#[trigger] avoids_all(i, store) }
+// every total assignment that extends base and avoids the store also extends a forced extension of base
+pub proof fn lemma_forced_ext_keeps(store: Seq<Vec<NoGood>>, base: Seq<Term>, v: Seq<Term>, i: TA)
+    requires tv_forced_ext(store, base, v), ext_tv(i, base), avoids_all(i, store),
+    ensures ext_tv(i, v)
+{
+    assert forall|p: int| 0 <= p < v.len() && !und(#[trigger] v[p]) implies i(p as u32) == (v[p].0 == 1) by {
+        if und(base[p]) { } else { assert(v[p] == base[p]); }
+    }
+}
+// one closure step: cur is a forced extension of base, val a sound extension of ng(cur)  ==>  upd_tv(val, cur) is a forced extension of base
+pub proof fn lemma_closure_step(store: Seq<Vec<NoGood>>, base: Seq<Term>, cur: Seq<Term>, ncur: &NoGood, val: &NoGood)
+    requires tv_forced_ext(store, base, cur), is_tv(ncur, cur), cur.len() <= u32::MAX, sound_ext(store, ncur, val), wf_ng(val),
+    ensures tv_forced_ext(store, base, upd_tv(val, cur))
+{
+    let nx = upd_tv(val, cur);
+    assert forall|p: int| 0 <= p < base.len() && !und(#[trigger] base[p]) implies nx[p] == base[p] by {
+        assert(cur[p] == base[p]);
+        assert(ncur.act().contains(p as u32));
+        if val.act().contains(p as u32) { assert(val.val().contains(p as u32) == ncur.val().contains(p as u32)); }
+    }
+    assert forall|p: int| 0 <= p < base.len() && und(#[trigger] base[p]) && !und(nx[p]) implies forall|i: TA| ext_tv(i, base) && #[trigger] avoids_all(i, store) ==> i(p as u32) == (nx[p].0 == 1) by {
+        assert forall|i: TA| ext_tv(i, base) && #[trigger] avoids_all(i, store) implies i(p as u32) == (nx[p].0 == 1) by {
+            lemma_forced_ext_keeps(store, base, cur, i);
+            lemma_ext_tv(i, ncur, cur);
+            if val.act().contains(p as u32) {
+                if ncur.act().contains(p as u32) { assert(val.val().contains(p as u32) == ncur.val().contains(p as u32)); assert(i(p as u32) == ncur.val().contains(p as u32)); }
+                else { assert(forced(store, ncur, p as u32, val.val().contains(p as u32))); }
+            } else { assert(nx[p] == cur[p]); }
+        }
+    }
+}
+pub proof fn lemma_closure_conflict(store: Seq<Vec<NoGood>>, base: Seq<Term>, cur: Seq<Term>, ncur: &NoGood)
+    requires tv_forced_ext(store, base, cur), is_tv(ncur, cur), cur.len() <= u32::MAX, no_extension(store, ncur),
+    ensures tv_no_extension(store, base)
+{
+    assert forall|i: TA| ext_tv(i, base) implies !#[trigger] avoids_all(i, store) by {
+        if avoids_all(i, store) { lemma_forced_ext_keeps(store, base, cur, i); lemma_ext_tv(i, ncur, cur); }
+    }
+}
+pub proof fn lemma_forced_ext_refl(store: Seq<Vec<NoGood>>, base: Seq<Term>) ensures tv_forced_ext(store, base, base) {}
+// number of undecided positions among the first k
+pub open spec fn und_count(tv: Seq<Term>, k: int) -> nat decreases k { if k <= 0 { 0 } else { und_count(tv, k - 1) + if und(tv[k - 1]) { 1nat } else { 0nat } } }
+pub proof fn lemma_upd_count(n: &NoGood, tv: Seq<Term>, k: int)
+    requires 0 <= k <= tv.len(),
+    ensures und_count(upd_tv(n, tv), k) <= und_count(tv, k),
+        (exists|i: int| 0 <= i < k && n.act().contains(i as u32) && und(#[trigger] tv[i])) ==> und_count(upd_tv(n, tv), k) < und_count(tv, k),
+    decreases k
+{
+    if k > 0 {
+        lemma_upd_count(n, tv, k - 1);
+        if exists|i: int| 0 <= i < k && n.act().contains(i as u32) && und(#[trigger] tv[i]) {
+            let i0 = choose|i: int| 0 <= i < k && n.act().contains(i as u32) && und(#[trigger] tv[i]);
+            if i0 < k - 1 { assert(und(tv[i0])); }
+        }
+    }
+}
+#[verifier::external_body]
+fn __o_vec_as_slice(v: &Vec<Term>) -> (r: &[Term]) ensures r@ == v@ { v.as_slice() }
